@@ -88,6 +88,41 @@ PROFILES = [
         "stmt_externals": [("self.write(engine, writer, np.asarray(input_values))", "σ", True)],
     },
     {
+        # `ops` = what the function uses of NumPy and of the engine (`E` = engines, `A` = arrays: Op.Fld.WriteOps);
+        # input variables are represented by their names; observable: the engine afterwards and the arguments of
+        # `np.savetxt` (the stacked array and the header text) in `out`
+        "name": "FldExporter_write", "module": "fuzzylite.exporter", "object": "FldExporter.write", "file": "CodeFldWrite",
+        "type_params": ["E", "A"],
+        "params": [("ops", "Op.Fld.WriteOps E A"), ("inputs", "List String"), ("outputs", "List String"), ("inputValues", "Bool"),
+                   ("outputValues", "Bool"), ("headers", "Bool"), ("sep", "String"), ("engine0", "E"), ("input_values0", "A")],
+        "init": {"engine": "engine0", "input_values": "input_values0"},
+        "locals": {"engine": "E", "input_values": "A", "index": "Nat", "variable": "String", "values": "List A",
+                   "out": "Option (A × String)"},
+        "externals": [
+            ("np.atleast_2d(_0)", "(ops.atleast2d {0})", "A", True, ["A"]),
+            ("_0.shape[1]", "(ops.ncols {0})", "Nat", True, ["A"]),
+            ("engine.input_variables", "inputs", "List String", True),
+            ("engine.input_values", "(ops.inputBlock σ.engine)", "A", True),
+            ("engine.output_values", "(ops.outputBlock σ.engine)", "A", True),
+            ("self.input_values", "inputValues", "Bool", True),
+            ("self.output_values", "outputValues", "Bool", True),
+            ("self.headers", "headers", "Bool", True),
+            # the method translated below
+            ("self.header(engine)", "(FldExporter_header.run inputs outputs inputValues outputValues sep {{}} >>= fun r => Py.deref r.ret)",
+             "String", False),
+        ],
+        "stmt_externals": [
+            ("engine.restart()", "{{ σ with engine := ops.restart σ.engine }}", True),
+            # (`variable` is a Lean keyword: the translator renames the local to `variable_`)
+            ("variable_.value = input_values[:, index]",
+             "{{ σ with engine := ops.setInput σ.engine σ.variable_ (ops.col σ.input_values σ.index) }}", True),
+            ("engine.process()", "{{ σ with engine := ops.process σ.engine }}", True),
+            ("values.append([])", "{{ σ with values := σ.values ++ [ops.emptyBlock] }}", True),
+            ("np.savetxt(writer, np.hstack(_0), fmt=f'%0.{settings.decimals}f', delimiter=self.separator, header=_1, comments='')",
+             "{{ σ with out := some (ops.hstack {0}, {1}) }}", True),
+        ],
+    },
+    {
         # variables are represented by their names
         "name": "FldExporter_header", "module": "fuzzylite.exporter", "object": "FldExporter.header", "file": "CodeFldReader",
         "params": [("inputs", "List String"), ("outputs", "List String"), ("inputValues", "Bool"), ("outputValues", "Bool"),
@@ -107,4 +142,5 @@ PROFILES = [
 FILES = {
     "CodeFunEval": {"imports": ["FlVerif.Op.PyExtFunEval"]},
     "CodeFldReader": {"imports": ["FlVerif.Op.PyExtFunEvalFld"]},
+    "CodeFldWrite": {"imports": ["FlVerif.Gen.CodeFldReader"]},
 }
